@@ -114,14 +114,15 @@ def asts(tier):
     out.append(["if", c1, A, ["if", c2, B, C]])
     out.append(["if", ["bin", "<", A, B], A, ["if", c2, B, C]])
     # built-ins with compound arguments and as operands
-    argshapes = [["bin", "+", A, B], ["bin", "-", A, B], ["bin", "*", A, B], ["bin", "/", A, B], A]
+    argshapes = [["bin", "+", A, B], ["bin", "-", A, B], ["bin", "*", A, B], ["bin", "/", A, B], A,
+                 ["bin", "-", A, A], ["bin", "*", ["bin", "-", B, B], C], ["num", 0.0]]      # arguments that evaluate to exactly zero
     funs = []
     for s in argshapes:
         for f in ("abs", "sqrt", "exp", "int", "ln", "log10", "sin", "cos", "tan"):
             funs.append(["un", f, s])
         funs.append(["xround", s])
         funs.append(["call", "percent", [s]])
-        for s2 in (C, ["bin", "+", B, C], ["bin", "-", B, C]):
+        for s2 in (C, ["bin", "+", B, C], ["bin", "-", B, C], ["num", 2.0], ["num", 3.0]):
             funs.append(["bin", "min", s, s2])
             funs.append(["bin", "max", s, s2])
             funs.append(["call", "safediv", [s, s2]])
